@@ -329,6 +329,11 @@ fn macs_step(ri: usize, cids: &[u8]) {
     }
     // effects on the MAC configuration: exactly what the fully-acknowledged requests commanded
     if room {
+        // split by what the fields feed: data rate / TX power (C09), receive windows (C10)
+        crate::vcheck!(cfg.data_rate == exp_cfg.data_rate && cfg.tx_power == exp_cfg.tx_power && cfg.adr_enabled == exp_cfg.adr_enabled,
+            "C08/C09: data rate and TX power must change exactly as the acknowledged LinkADRReq commands, and not at all for rejected ones");
+        crate::vcheck!(cfg.rx1_delay == exp_cfg.rx1_delay && cfg.rx1_dr_offset == exp_cfg.rx1_dr_offset && cfg.rx2_data_rate == exp_cfg.rx2_data_rate && cfg.rx2_frequency == exp_cfg.rx2_frequency,
+            "C08/C10: RX1 delay, RX1 data-rate offset and RX2 parameters must change exactly as the acknowledged RXTimingSetupReq / RXParamSetupReq command, and not at all for rejected ones");
         crate::vcheck!(mc::cfg_same(&cfg, &exp_cfg), "C08: the configuration must change exactly as the acknowledged requests command, and not at all for rejected ones");
         if !has_channel_cmd(cids) {
             let mut b = 0;
